@@ -1339,7 +1339,7 @@ def sensors_temperatures():
         '/sys/devices/platform/coretemp.*/hwmon/hwmon*/temp*_*'
     )
     repl = re.compile(r"/sys/devices/platform/coretemp.*/hwmon/")
-    for name in basenames2:
+    for name in sorted({x.split('_')[0] for x in basenames2}):
         altname = repl.sub('/sys/class/hwmon/', name)
         if altname not in basenames:
             basenames.append(name)
